@@ -166,8 +166,36 @@ def oracle(run):
     for i, (sp, st) in enumerate(case["stages"]):
         if not st.get("in"):
             noin.add(i)
+    names = [sp for sp, st_ in case["stages"]]
+    committed_cmd = {}
+
+    def command_of(snap, sp):
+        doc = snap["stages"].get(sp)
+        parsed = doc[1] if doc else None
+        return ((parsed or {}).get("command") or "").strip()
     for k, st in enumerate(steps):
         op = st["op"]
+        if op[0] == "commit" and st["rc"] == 0:
+            tg = [names.index(t) for t in op[2]] if op[2] else list(range(len(names)))
+            for i_ in upstream(case["edges"], tg):
+                if i_ < len(names):
+                    committed_cmd[names[i_]] = command_of(st["snap"], names[i_])
+        if op[0] == "run" and not op[1] and not op[2] and st["rc"] == 0 and st["log"] is not None:
+            # "every stage that has a command either executed during that run … or is unchanged since its last commit: its definition …"
+            ran_ids = set(st["log"])
+            for i_, sp in enumerate(names):
+                cmd_now = command_of(st["snap"], sp)
+                if not cmd_now:
+                    continue
+                ident = (cmd_now.split() + ["", ""])[1].encode()
+                if ident in ran_ids:
+                    continue
+                if sp not in committed_cmd:
+                    v.append(("not-run-never-committed", "after a successful recursive `dud run` (step %d) stage %s neither executed nor was ever committed" % (k, sp.decode())))
+                elif committed_cmd[sp] != cmd_now:
+                    v.append(("definition-changed-not-run", "after a successful recursive `dud run` (step %d of %s) stage %s did not execute although its "
+                              "command differs from the one its last commit recorded: %r vs %r" % (
+                                  k, [s1.op_text(o) for o in case["ops"][:k + 1]][-5:], sp.decode(), cmd_now, committed_cmd[sp])))
         if op[0] == "run" and not op[1] and not op[2] and st["rc"] == 0:
             if st.get("inconsistent"):
                 v.append(("stale-output", "after a successful recursive `dud run` (step %d of %s) the outputs of %s are not what their command "
